@@ -186,6 +186,8 @@ pub struct StateDump {
 /// What one iteration of `DB::make_room_for_write` read under the database mutex.
 #[derive(Clone, Copy, Debug, PartialEq, Eq)]
 pub struct RoomView {
+    /// number of the call of `make_room_for_write` this iteration belongs to
+    pub call: u64,
     pub force: bool,
     pub allow_delay: bool,
     pub bad: bool,
@@ -1200,6 +1202,12 @@ static SEEK_EVENTS: std::sync::atomic::AtomicBool = std::sync::atomic::AtomicBoo
 static READ_SAMPLE_PERIOD: std::sync::atomic::AtomicU64 = std::sync::atomic::AtomicU64::new(0);
 
 static ROOM_EVENTS: std::sync::atomic::AtomicBool = std::sync::atomic::AtomicBool::new(false);
+static ROOM_CALLS: std::sync::atomic::AtomicU64 = std::sync::atomic::AtomicU64::new(0);
+
+/// A fresh number for a call of `make_room_for_write`.
+pub(crate) fn next_room_call() -> u64 {
+    ROOM_CALLS.fetch_add(1, std::sync::atomic::Ordering::SeqCst)
+}
 
 /// Record an `Event::MakeRoom` for every iteration of `DB::make_room_for_write`.
 pub fn set_room_events(enabled: bool) {
